@@ -15,7 +15,8 @@ import collections, datetime, os, random, sys
 import vcommon
 from vcommon import VERIF
 
-PROPS = ["Bee2V/C12/Props.lean"]
+PROPS = ["Bee2V/C12/Props.lean", "Bee2V/C12/PropsPri.lean", "Bee2V/C12/PropsVal.lean", "Bee2V/C12/PropsEc2.lean"]
+TARGETS = ["Bee2V.C12.Props", "Bee2V.C12.PropsPri", "Bee2V.C12.PropsVal", "Bee2V.C12.PropsEc2"]
 
 
 def regen(ctx):
@@ -356,7 +357,7 @@ def run(ctx):
         regen(ctx)
     except Exception as e:
         terr = "%s: %s" % (type(e).__name__, e)
-    proof_ok, log = (False, "translator: " + terr) if terr else ctx.prove(["Bee2V.C12.Props"], PROPS)
+    proof_ok, log = (False, "translator: " + terr) if terr else ctx.prove(TARGETS, PROPS)
     ctx.cov["t_prove_s"] = round(__import__("time").time() - ctx.t0, 1)
     exes = {"asan": ctx.cc("harness/c12.c", "asan"), "w32": ctx.cc("harness/c12.c", "w32")}
     std, bels = C12_val.load_std(lambda lines: ctx.run_lines(exes["asan"], lines)[0])
